@@ -15,7 +15,8 @@ PROP = {
                   "upper-case and prefix patterns). Locations are built from a target (tree file, directory, "
                   "missing name, /etc file) by target-preserving spellings ('.', doubled and leading '//' "
                   "separators, 'name/..' detours incl. through allowed directories and missing names, climbs "
-                  "above the root, trailing '/' and '/.', and decoys whose written form matches a pattern segment by segment while the cleaned path does not) and as relative paths, file:/ftp:/other-scheme and "
+                  "above the root, trailing '/' and '/.', and decoys whose written form matches a pattern segment by segment "
+                  "while the cleaned path does not) and as relative paths, file:/ftp:/other-scheme and "
                   "scheme-less host-looking strings, http(s) URLs. They are sent through the real handlers POST "
                   "add_url and set_url (block and allow lists, enabled and disabled-then-enabled) and are "
                   "pre-seeded into the configuration before refreshes (handler, forced, due-only), alone and in "
